@@ -43,6 +43,14 @@ pub const FIXED_FENS: &[&str] = &[
     "4k3/8/8/6Pp/8/8/8/4K3 w - h6 0 1",
     "4k3/8/8/8/Pp6/8/8/4K3 b - a3 0 1",
     "4k3/8/8/8/6pP/8/8/4K3 b - h3 0 1",
+    // in check along the fourth/fifth rank; the only legal move is a double pawn push interposing
+    "2k5/8/8/2q5/r6K/1r6/4P3/8 w - - 0 1",
+    "2k5/8/8/2q5/r6K/1r6/6P1/8 w - - 0 1",
+    "2k5/8/8/2q5/r6K/1r6/2P5/8 w - - 0 1",
+    "8/4p3/1R6/R6k/2Q5/8/8/2K5 b - - 0 1",
+    // the only legal move is a promotion / an under-promotion capture / a castling-free king step
+    "k7/2P5/1K6/8/8/8/8/8 w - - 0 1",
+    "1r5k/P5pp/8/8/8/8/8/K7 w - - 0 1",
     // stalemate shape: the only pseudo-legal move is an en passant that uncovers the king
     "2b4k/p7/1n6/KPp4r/8/8/8/8 w - c6 0 1",
     "k4b2/7p/6n1/r4pPK/8/8/8/8 w - f6 0 1",
@@ -917,5 +925,57 @@ pub fn fam_ep_stalemate(rng: &mut Rng) -> MPos {
         p = p.mirror_v();
     }
     p.halfmove = *rng.pick(&[0u16, 3, 99, 100, 149, 150]);
+    p
+}
+
+/// G3: raw positions whose en-passant mark must be dropped by validation: on a pawn of the side
+/// to move, on an empty square, on a piece, or on an enemy pawn with the square behind occupied —
+/// always on the rank appropriate to the side to move, with a would-be capturer beside it.
+pub fn fam_odd_marks(rng: &mut Rng) -> MPos {
+    let mut p = match rng.below(3) {
+        0 => fam_enpassant(rng),
+        1 => fam_pin(rng),
+        _ => scattered(rng),
+    };
+    let w = p.white_to_move;
+    let (mark_rank, behind_rank) = if w { (4u8, 5u8) } else { (3u8, 2u8) };
+    let f = rng.below(8) as u8;
+    let m = sq(f, mark_rank);
+    let behind = sq(f, behind_rank);
+    match rng.below(4) {
+        0 => {
+            // own pawn, empty square behind
+            if kind(p.at(m)) != b'K' && kind(p.at(behind)) != b'K' {
+                p.sq[m as usize] = man(w, b'P');
+                p.sq[behind as usize] = EMPTY;
+            }
+        }
+        1 => {
+            if kind(p.at(m)) != b'K' {
+                p.sq[m as usize] = EMPTY;
+            }
+        }
+        2 => {
+            if kind(p.at(m)) != b'K' {
+                p.sq[m as usize] = man(rng.chance(1, 2), *rng.pick(b"NBRQ"));
+            }
+        }
+        _ => {
+            // enemy pawn but the square behind is occupied
+            if kind(p.at(m)) != b'K' && kind(p.at(behind)) != b'K' {
+                p.sq[m as usize] = man(!w, b'P');
+                p.sq[behind as usize] = man(rng.chance(1, 2), *rng.pick(b"NBRQP"));
+            }
+        }
+    }
+    p.ep = Some(m);
+    // a would-be capturer beside the mark
+    for d in [-1i8, 1] {
+        if let Some(c) = step(m, d, 0) {
+            if p.at(c) == EMPTY && rng.chance(2, 3) {
+                p.sq[c as usize] = man(w, b'P');
+            }
+        }
+    }
     p
 }
